@@ -22,6 +22,7 @@ RULE = (
     "result of f == first, shared arguments and every function default / module constant unchanged. "
     "state = (thunk, form) or a call sequence; transition = one public call; non-trivial = sequence of "
     "two different thunks sharing at least one argument array. Order differential: all thunks once each in fresh processes in forward / reverse / interleaved order, results compared thunk by thunk."
+    " Sparse mGH inputs (CSR with explicitly stored zeros, CSC, LIL) snapshotted entry by entry."
 )
 ASSUMPTIONS = [
     "which argument forms an entry point accepts is pinned from the unchanged tree (table FORMS_ACCEPTED); an accepted form that starts raising is a violation",
